@@ -8,6 +8,27 @@ from . import semapipe as SP
 from . import oracle_sema_c as OC
 
 
+def perturb(text, rnd):
+    """one occurrence of a user identifier replaced by a NEAR name (case variant, prefix, extension, look-alike):
+    the two names are distinct identifiers, so the result must still be invariant under renaming them apart —
+    a hidden relation between names (case-insensitive or prefix look-up, normalisation) breaks that"""
+    toks = OC.tokenize(text)
+    idx = [i for i, (k, t) in enumerate(toks) if k == "ident" and t not in OC.RESERVED
+           and not (i > 0 and toks[i - 1][0] in ("num", "str"))]
+    if not idx:
+        return None
+    i = rnd.choice(idx)
+    t = toks[i][1]
+    cands = [t.upper(), t.lower(), t.capitalize(), t.swapcase(), t + "_", t + "0", "_" + t, t[:-1] if len(t) > 1 else t + "x",
+             t.replace("u", "µ").replace("a", "а") if any(c in t for c in "ua") else t + "é"]
+    used = {x for k, x in toks if k == "ident"}
+    cands = [c for c in cands if c != t and c not in OC.RESERVED and c not in used and (c[0].isalpha() or c[0] == "_")]
+    if not cands:
+        return None
+    new = rnd.choice(cands)
+    return "".join(new if j == i else x for j, (k, x) in enumerate(toks))
+
+
 def check(ctx):
     C.extract(ctx)
     C.prove(ctx, ["Oq3.Props.C17"])
@@ -18,6 +39,8 @@ def check(ctx):
     q = ctx.tier == "quick"
     rnd = random.Random(ctx.seed)
     base = [G.dec(l) for l in C.load_corpus("sema")] + GP.gen_programs(ctx.seed + 70, 2500 if q else 40000)
+    near = [perturb(t, rnd) for t in base[: (1500 if q else 20000)]]
+    base += [t for t in near if t]
     recs, stats = SP.run(ctx, base, tag="c17base")
     lexl = C.run_impl(ctx, "lex", [G.enc(t) for t in base], tag="c17lex")
     variants = []     # (base index, mode, text, mapping)
@@ -68,7 +91,7 @@ def check(ctx):
     C.decide(ctx, failures, C.load_findings("C17"))
     ctx.coverage.update({
         "evaluations": len(variants), "distinct_nontrivial": nontriv,
-        "rule": "generated programs (valid or with semantic faults) x 2 random re-layouts (all admissible separators, comments) x 1 random injective renaming avoiding keywords, built-ins and standard gate names x up to 4 split points at top-level statement boundaries x the same text twice; results compared modulo positions / the renaming / as prefixes; non-trivial = variant analysed to a graph and equal modulo the transformation",
+        "rule": "generated programs (valid or with semantic faults; plus copies in which one identifier occurrence is replaced by a NEAR name: case variant, prefix, extension, look-alike) x 2 random re-layouts (all admissible separators, comments) x 1 random injective renaming avoiding keywords, built-ins and standard gate names x up to 4 split points at top-level statement boundaries x the same text twice; results compared modulo positions / the renaming / as prefixes; non-trivial = variant analysed to a graph and equal modulo the transformation",
         "variants_by_mode": per_mode, "sema_correspondence": dict(stats),
         "traces_validated_against_impl": sum(v for k, v in stats.items() if "agree" in k),
         "correspondence_disagreements": stats.get("disagree", 0) + stats.get("panic-disagree", 0),
